@@ -15,13 +15,13 @@ const LcNone = "<none>"
 func init() {
 	// ---- appchain
 	a := lcEdges{}
-	expand(a, LcNone, "available")                                  // registration approved
-	expand(a, "available", "updating", "freezing", "logouting", "frozen") // update, freeze, logout, pause
-	expand(a, "frozen", "updating", "activating", "logouting", "available") // update, activate, logout, unpause
+	expand(a, LcNone, "available")                                                                   // registration approved
+	expand(a, "available", "updating", "freezing", "logouting", "frozen")                            // update, freeze, logout, pause
+	expand(a, "frozen", "updating", "activating", "logouting", "available")                          // update, activate, logout, unpause
 	expand(a, "logouting", "updating", "freezing", "activating", "forbidden", "available", "frozen") // (declared) + approve + reject->last
-	expand(a, "updating", "available", "frozen", "logouting")     // approve, reject, logout
-	expand(a, "freezing", "frozen", "available", "logouting")     // approve, reject->last, logout
-	expand(a, "activating", "available", "frozen", "logouting")   // approve, reject->last, logout
+	expand(a, "updating", "available", "frozen", "logouting")                                        // approve, reject, logout
+	expand(a, "freezing", "frozen", "available", "logouting")                                        // approve, reject->last, logout
+	expand(a, "activating", "available", "frozen", "logouting")                                      // approve, reject->last, logout
 	Lifecycle["appchain"] = a
 	// ---- service
 	s := lcEdges{}
